@@ -200,7 +200,7 @@ func (u *Unit) keySort(t *types.Map) string {
 
 func (u *Unit) mapHas(st *State, t *types.Map, m Term, k Val) Term {
 	d, _, _ := mapHeaps(t)
-	return tSel(tSel(u.heapTerm(st, d, sArr(SInt, sArr(u.keySort(t), SBool))), m), k.S)
+	return tAnd(tNot(tEq(m, "0")), tSel(tSel(u.heapTerm(st, d, sArr(SInt, sArr(u.keySort(t), SBool))), m), k.S))
 }
 
 func (u *Unit) mapCard(st *State, t *types.Map, m Term) Term {
@@ -795,6 +795,9 @@ func (u *Unit) sliceArray(st *State, ref, n, lo, hi, mx Term, T types.Type, lbl 
 
 func (u *Unit) evalComposite(st *State, x *ast.CompositeLit, addr bool) Val {
 	T := u.typeOf(x)
+	if isTimeTime(T) && len(x.Elts) == 0 && !addr {
+		return u.zeroVal(st, T)
+	}
 	switch t := T.Underlying().(type) {
 	case *types.Struct:
 		r := u.alloc(st, "new."+typeKey(T))
